@@ -112,6 +112,15 @@ def bound_renderer(c, consts=None):
             sep = r.choice([',', ':'])
             lo = dec(b * u['pns'], un) + un
             hi = dec(e * u['pns'], un)
+            if r.random() < 0.5:
+                # the other way round: the unit stands after the constant, the lower bound is bare and takes it (`[0, T ms]`)
+                lo = dec(b * u['pns'], un)
+                if consts is None:
+                    return '[%s%s%s%s]' % (lo, sep, hi, un)
+                nm = 'tu%d_%d' % (b, e)
+                if nm not in [x[0] for x in consts]:
+                    consts.append([nm, 'float', hi])
+                return '[%s%s%s %s]' % (lo, sep, nm, un)
             if consts is None:
                 return '[%s%s%s]' % (lo, sep, hi)
             nm = 'tb%d_%d' % (b, e)
